@@ -33,4 +33,16 @@ CHECKS = {
   "note": "Trusted: Coq kernel + vm_compute; hand-written transducers and the duplicated function library; itertools.groupby; buffer/parmap enter the model with their C01/C05 sequential behaviour (identity / in-order map) and are executed for real in the tie. buffer sizes 1-2 are excluded from generated pipelines (known finding C05-C hangs on early stop). No axioms.",
   "design_ref": "DESIGN.md section 5 C03",
  },
+ "C06": {
+  "technique": "Coq proof (lock-ownership invariant over all schedules and timer expiries of the caller/gather/notifier model) + trace validation of the real Server under a deterministic scheduler",
+  "text": "Theorem for every capacity, number and kind of callers, servlet workers, servlet function and every interleaving including every moment a timed wait may expire: the ledger never holds more than `capacity` requests (current and historical maximum). Tie: the real Server.call / gather / notifier code runs on real threads under the deterministic scheduler with a logging ledger and condition, the backlog is sampled at every yield point, each run is replayed event by event in the model. Oracle per run: backlog <= capacity, backpressure callers never wait and rejected callers leave no trace, waits bounded by the timeout (deadline-ordered timers), idle server has backlog zero, context exits normally. Two genuine defects found this way were repaired (fix: commits de2b131, c677130).",
+  "note": "Partial: slot-returned/idle-zero and reject-clean are oracle-checked on explored runs (theorems _todo). Trusted: Coq kernel + vm_compute, the hand-written model, scheduler + virtual primitives, unique request ids (id reuse is C02), servlet stand-in; AsyncServer not scheduled. No axioms.",
+  "design_ref": "DESIGN.md section 5 C06",
+ },
+ "C07": {
+  "technique": "Coq proof (invariants over all schedules with deadline expiry at any step) + trace validation of the real Server under timer-adversarial deterministic schedules",
+  "text": "Theorems for all configurations and all interleavings with a caller's deadline allowed to expire at any step: the gather thread is never killed, and every answered request receives the servlet's result for its own input. Tie and oracle as C06, with schedules that make cancel() land before, between and after the gather thread's pop / cancelled() / set_result; every run must leave the server context normally with the gather thread alive and all non-timed-out callers answered correctly. The InvalidStateError defect found this way was repaired (fix: commit 08bbde4).",
+  "note": "Partial: shutdown_completes is liveness and rests on explored runs; stream abandonment is covered through the fifo_stream cleanup model (C05), not re-modelled here. Trusted as C06. No axioms.",
+  "design_ref": "DESIGN.md section 5 C07",
+ },
 }
